@@ -338,7 +338,10 @@ theorem scroll_failure_silent (fx : Fixes) (caps : Caps) (termCols : Int) (rect 
   · rw [if_neg h0] at h ⊢
     simp only [] at h ⊢
     by_cases h1 : ((caps.slrm = true ∧ rect.lines = 1) ∨ rect.right = termCols) ∧ downward = 0
-    · rw [if_pos h1] at h; cases h
+    · rw [if_pos h1] at h ⊢
+      by_cases hc : fx.scrollCellGuard = true ∧ rect.right < termCols ∧ rect.right < 2
+      · rw [if_pos hc]
+      · rw [if_neg hc] at h; cases h
     · rw [if_neg h1] at h ⊢
       by_cases h2 : caps.slrm = true ∨ (rect.left = 0 ∧ rect.cols = termCols ∧ rightward = 0)
       · rw [if_pos h2] at h ⊢
@@ -350,16 +353,22 @@ theorem scroll_failure_silent (fx : Fixes) (caps : Caps) (termCols : Int) (rect 
 
 example : (scrollrect Fixes.none ⟨false, false, false⟩ 80 ⟨3, 10, 5, 60⟩ 1 0) = (false, []) := by decide
 
-/-- A scroll that reports success moves exactly the cells of the rectangle by the given offsets, blanks the vacated
-    cells (current background), touches nothing outside and leaves no margins set — for every screen, every in-range
-    rectangle and offsets, both values of the DECSLRM capability, whichever of the strategies the driver picks. -/
-theorem scroll_success_effect (fx : Fixes) (vt : VTState) (hw : Spec.WF vt) (caps : Caps) (hcaps : Spec.CapsOK caps vt)
-    (rect : Rect) (downward rightward : Int) (hin : ScrollInRange vt rect downward rightward)
+/-- The scroll clause for a non-empty rectangle on the screen and offsets of ANY size, for either version of each of
+    the two guards of `scrollrect`: a bound on an offset is needed only where the corresponding guard is missing from
+    the source (`|downward| < lines` without the margin guard, `|rightward| < cols` without the margin guard or without
+    the one-cell guard).  A scroll that reports success moves exactly the cells of the rectangle by the given offsets,
+    blanks the vacated cells (all of them when an offset is at least the size), touches nothing outside and leaves no
+    margins set. -/
+theorem scroll_effect_general (fx : Fixes) (vt : VTState) (hw : Spec.WF vt) (caps : Caps) (hcaps : Spec.CapsOK caps vt)
+    (rect : Rect) (downward rightward : Int)
+    (hl1 : 1 ≤ rect.lines) (hc1 : 1 ≤ rect.cols) (htop : 0 ≤ rect.top) (hbot : rect.bottom ≤ vt.lines)
+    (hleft : 0 ≤ rect.left) (hright : rect.right ≤ vt.cols)
+    (hd : fx.scrollGuard = false → -rect.lines < downward ∧ downward < rect.lines)
+    (hr : fx.scrollGuard = false ∨ fx.scrollCellGuard = false → -rect.cols < rightward ∧ rightward < rect.cols)
     (hone : fx.scrollGuard = false → ¬ OneColumnTrigger caps vt.cols rect downward)
     (hret : (scrollrect fx caps vt.cols rect downward rightward).1 = true) :
     Spec.ScrollOK rect downward rightward vt (run (scrollrect fx caps vt.cols rect downward rightward).2 vt) := by
   have hg := hw.ground
-  obtain ⟨hl1, hc1, htop, hbot, hleft, hright, hd, hr⟩ := hin
   have hb : rect.bottom = rect.top + rect.lines := rfl
   have hrt : rect.right = rect.left + rect.cols := rfl
   have mt := hw.mtop; have mb := hw.mbot; have ml := hw.mleft; have mr := hw.mright
@@ -383,7 +392,23 @@ theorem scroll_success_effect (fx : Fixes) (vt : VTState) (hw : Spec.WF vt) (cap
           | inl h => exact h
           | inr h => omega
         have hdecl : vt.declrmm = true := hcaps hs.1
-        rw [scrollrect_ichdch_margin fx caps vt.cols rect rightward hr0 hs hlt]
+        -- the right margin is a margin: by the one-cell guard, or (without it) by the bound on the offset
+        have hcg : ¬ (fx.scrollCellGuard = true ∧ rect.right < vt.cols ∧ rect.right < 2) := by
+          intro hcg
+          unfold scrollrect at hret
+          rw [if_neg (by intro h; exact hr0 h.2)] at hret
+          simp only [] at hret
+          rw [if_pos ⟨Or.inl hs, trivial⟩, if_pos hcg] at hret
+          cases hret
+        have h2r : 2 ≤ rect.right := by
+          cases hcgv : fx.scrollCellGuard with
+          | true =>
+            have : ¬ rect.right < 2 := fun h => hcg ⟨hcgv, hlt, h⟩
+            omega
+          | false =>
+            have := hr (Or.inr hcgv)
+            omega
+        rw [scrollrect_ichdch_margin fx caps vt.cols rect rightward hr0 hs hlt hcg]
         simp only []
         rw [run_append, run_append, run_csi_0n vt hg rect.right (by omega) 0x73 fin_s, dispatch_decslrm, hdecl]
         simp only [if_true, param_0n0, param_0n1]
@@ -431,16 +456,22 @@ theorem scroll_success_effect (fx : Fixes) (vt : VTState) (hw : Spec.WF vt) (cap
           simp only [] at hret
           rw [if_neg hB1, if_pos hB2, if_pos hgd] at hret
           cases hret
-        -- DECSTBM needs two lines: follows from the contract
+        -- DECSTBM needs two lines: by the margin guard, or (without it) from the bound on the offset
         have hl2 : 2 ≤ rect.lines := by
-          by_cases h1 : rect.lines = 1
-          · exfalso
-            have hd0 : downward = 0 := by omega
-            have hns : ¬ (caps.slrm = true) := fun hs => hB1 ⟨Or.inl ⟨hs, h1⟩, hd0⟩
-            cases hB2 with
-            | inl hs => exact hns hs
-            | inr h => exact h0 ⟨hd0, h.2.2⟩
-          · omega
+          cases hsg : fx.scrollGuard with
+          | true =>
+            have : ¬ rect.lines < 2 := fun h => hgd ⟨hsg, Or.inl h⟩
+            omega
+          | false =>
+            have hd := hd hsg
+            by_cases h1 : rect.lines = 1
+            · exfalso
+              have hd0 : downward = 0 := by omega
+              have hns : ¬ (caps.slrm = true) := fun hs => hB1 ⟨Or.inl ⟨hs, h1⟩, hd0⟩
+              cases hB2 with
+              | inl hs => exact hns hs
+              | inr h => exact h0 ⟨hd0, h.2.2⟩
+            · omega
         by_cases hneed : rect.left > 0 ∨ rect.right < vt.cols
         · -- with left/right margins
           have hs : caps.slrm = true := by
@@ -449,14 +480,18 @@ theorem scroll_success_effect (fx : Fixes) (vt : VTState) (hw : Spec.WF vt) (cap
             | inr h => omega
           have hdecl : vt.declrmm = true := hcaps hs
           have hc2 : 2 ≤ rect.cols := by
-            by_cases h1 : rect.cols = 1
-            · exfalso
-              have hr0 : rightward = 0 := by omega
-              have hd0 : downward ≠ 0 := fun h => h0 ⟨h, hr0⟩
-              cases hsg : fx.scrollGuard with
-              | false => exact hone hsg ⟨hs, h1, hd0, hneed⟩
-              | true => exact hgd ⟨hsg, Or.inr ⟨hneed, by omega⟩⟩
-            · omega
+            cases hsg : fx.scrollGuard with
+            | true =>
+              have : ¬ rect.cols < 2 := fun h => hgd ⟨hsg, Or.inr ⟨hneed, h⟩⟩
+              omega
+            | false =>
+              have hr := hr (Or.inl hsg)
+              by_cases h1 : rect.cols = 1
+              · exfalso
+                have hr0 : rightward = 0 := by omega
+                have hd0 : downward ≠ 0 := fun h => h0 ⟨h, hr0⟩
+                exact hone hsg ⟨hs, h1, hd0, hneed⟩
+              · omega
           rw [scrollrect_margins_lr fx caps vt.cols rect downward rightward h0 hB1 hB2 hgd hneed]
           simp only []
           rw [run_append, run_csi_nn vt hg (rect.top + 1) rect.bottom (by omega) (by omega) 0x72 fin_r,
@@ -510,6 +545,18 @@ theorem scroll_success_effect (fx : Fixes) (vt : VTState) (hw : Spec.WF vt) (cap
         rw [if_neg hB1, if_neg hB2] at hret
         cases hret
 
+/-- A scroll that reports success moves exactly the cells of the rectangle by the given offsets, blanks the vacated
+    cells (current background), touches nothing outside and leaves no margins set — for every screen, every in-range
+    rectangle and offsets, both values of the DECSLRM capability, whichever of the strategies the driver picks. -/
+theorem scroll_success_effect (fx : Fixes) (vt : VTState) (hw : Spec.WF vt) (caps : Caps) (hcaps : Spec.CapsOK caps vt)
+    (rect : Rect) (downward rightward : Int) (hin : ScrollInRange vt rect downward rightward)
+    (hone : fx.scrollGuard = false → ¬ OneColumnTrigger caps vt.cols rect downward)
+    (hret : (scrollrect fx caps vt.cols rect downward rightward).1 = true) :
+    Spec.ScrollOK rect downward rightward vt (run (scrollrect fx caps vt.cols rect downward rightward).2 vt) := by
+  obtain ⟨hl1, hc1, htop, hbot, hleft, hright, hd, hr⟩ := hin
+  exact scroll_effect_general fx vt hw caps hcaps rect downward rightward hl1 hc1 htop hbot hleft hright
+    (fun _ => hd) (fun _ => hr) hone hret
+
 /-- margins on all four sides, both offsets non-zero -/
 example := scroll_success_effect Fixes.none exScreen exScreen_wf ⟨true, false, false⟩ (fun _ => rfl) ⟨1, 1, 2, 3⟩ 1 (-1)
   (by constructor <;> decide) (by intro _ h; revert h; decide) (by decide)
@@ -521,6 +568,20 @@ example := scroll_success_effect Fixes.none exScreen exScreen_wf ⟨true, true, 
   (by constructor <;> decide) (by intro _ h; revert h; decide) (by decide)
 
 /-! ### Sequences of requests -/
+
+/-- The contract of a scroll request follows from the classical in-range contract (offsets smaller than the
+    rectangle) for every version of the source … -/
+theorem inContract_scroll_of_inRange (fx : Fixes) (d : Drv) (vt : VTState) (r : Rect) (dn rt : Int)
+    (hin : ScrollInRange vt r dn rt) (hone : fx.scrollGuard = false → ¬ OneColumnTrigger d.caps vt.cols r dn) :
+    InContract fx d vt (.scroll r dn rt) :=
+  ⟨⟨hin.lines_pos, hin.cols_pos, hin.top, hin.bottom, hin.left, hin.right⟩, fun h => ⟨hin.down, hone h⟩, fun _ => hin.rightw⟩
+
+/-- … and, for the repaired source, from the rectangle being on the screen alone: offsets of ANY size are in range. -/
+theorem inContract_scroll_any_offset (fx : Fixes) (hfx : fx.scrollGuard = true) (hcell : fx.scrollCellGuard = true)
+    (d : Drv) (vt : VTState) (r : Rect) (dn rt : Int) (hon : RectOnScreen vt r) :
+    InContract fx d vt (.scroll r dn rt) :=
+  ⟨hon, fun h => absurd (hfx.symm.trans h) (by decide),
+    fun h => h.elim (fun h => absurd (hfx.symm.trans h) (by decide)) (fun h => absurd (hcell.symm.trans h) (by decide))⟩
 
 /-- One request, in range on a well-formed screen, has exactly its effect and leaves a well-formed screen on which
     the assumptions about the driver-side state still hold. -/
@@ -584,7 +645,7 @@ theorem request_effect (fx : Fixes) (d : Drv) (vt : VTState) (hw : Spec.WF vt) (
     rw [clear_effect vt hw]
     exact ⟨rfl, ⟨g, r1, r2, c1, c2, m1, m2, m3, m4⟩, hcaps, hcols, hrv, rfl⟩
   | scroll r dn rt =>
-    obtain ⟨hin, hone⟩ := hq
+    obtain ⟨⟨hl1, hc1, htop, hbot, hleft, hright⟩, hdn, hrt⟩ := hq
     simp only [request, StepOK]
     rw [hcols]
     cases hret : (scrollrect fx d.caps vt.cols r dn rt).1 with
@@ -593,10 +654,12 @@ theorem request_effect (fx : Fixes) (d : Drv) (vt : VTState) (hw : Spec.WF vt) (
       simp only [Bool.false_eq_true, if_false]
       exact ⟨trivial, hw, hcaps, trivial, hrv, trivial⟩
     | true =>
-      have hs := scroll_success_effect fx vt hw d.caps hcaps r dn rt hin hone hret
+      have hs := scroll_effect_general fx vt hw d.caps hcaps r dn rt hl1 hc1 htop hbot hleft hright
+        (fun h => (hdn h).1) hrt (fun h => (hdn h).2) hret
+      have hs' := hs
       obtain ⟨⟨e1, e2, e3, e4, e5, e6, e7, e8, e9, e10⟩, _, s1, s2, s3, s4⟩ := hs
       simp only [if_true]
-      refine ⟨scroll_success_effect fx vt hw d.caps hcaps r dn rt hin hone hret, ?_, ?_, ?_, ?_, e8⟩
+      refine ⟨hs', ?_, ?_, ?_, ?_, e8⟩
       · exact ⟨e10.trans g, by omega, by omega, by omega, by omega, by omega, by omega, by omega, by omega⟩
       · intro h; rw [e7]; exact hcaps h
       · exact e2.symm
@@ -823,10 +886,25 @@ theorem ops_effect (fx : Fixes) (ops : List Op) (d : Drv) (vt : VTState) (hw : S
     and the same rectangle (whose right edge is where the screen used to end) is scrolled again -/
 example : AllOpsInContract Fixes.none (⟨⟨false, false, false⟩, 4, 6, PenCache.empty⟩, cexScreen 4 6)
     [.req (.scroll ⟨0, 0, 4, 6⟩ 1 0), .resize 4 9, .req (.scroll ⟨0, 0, 4, 6⟩ 1 0)] :=
-  ⟨⟨⟨by decide, by decide, by decide, by decide, by decide, by decide, by decide, by decide⟩, fun _ h => absurd h.1 (by decide)⟩,
+  ⟨inContract_scroll_of_inRange _ _ _ _ _ _
+     ⟨by decide, by decide, by decide, by decide, by decide, by decide, by decide, by decide⟩ (fun _ h => absurd h.1 (by decide)),
    ⟨by decide, by decide⟩,
-   ⟨⟨by decide, by decide, by decide, by decide +kernel, by decide, by decide +kernel, by decide, by decide⟩,
-    fun _ h => absurd h.1 (by decide)⟩, trivial⟩
+   inContract_scroll_of_inRange _ _ _ _ _ _
+     ⟨by decide, by decide, by decide, by decide +kernel, by decide, by decide +kernel, by decide, by decide⟩
+     (fun _ h => absurd h.1 (by decide)), trivial⟩
+
+/-- non-vacuity of `ops_effect` / `buffered_history_effect` for the repaired source, where offsets of ANY size are in
+    contract: a rectangle with margins on all four sides scrolled by more than its size in both directions (blanked),
+    the single cell at the origin scrolled horizontally (refused: nothing sent), a one-line rectangle scrolled
+    vertically (refused) -/
+example : AllOpsInContract ⟨true, true, true, true, true⟩
+    (⟨⟨true, false, false⟩, 4, 6, PenCache.empty⟩, { cexScreen 4 6 with declrmm := true })
+    [.req (.scroll ⟨1, 1, 2, 3⟩ 5 (-3)), .req (.scroll ⟨0, 0, 1, 1⟩ 0 2), .req (.scroll ⟨2, 0, 1, 6⟩ 3 0)] :=
+  ⟨inContract_scroll_any_offset _ rfl rfl _ _ _ _ _ ⟨by decide, by decide, by decide, by decide, by decide, by decide⟩,
+   inContract_scroll_any_offset _ rfl rfl _ _ _ _ _
+     ⟨by decide, by decide, by decide, by decide +kernel, by decide, by decide +kernel⟩,
+   inContract_scroll_any_offset _ rfl rfl _ _ _ _ _
+     ⟨by decide, by decide, by decide, by decide +kernel, by decide, by decide +kernel⟩, trivial⟩
 
 /-- after start-up: `CSI m` has been sent and the cache is empty -/
 example : Spec.PenInv PenCache.empty (cexScreen 4 6) := ⟨rfl, fun _ h => by cases h⟩
@@ -854,7 +932,7 @@ theorem suspend_effect (fx : Fixes) (hfx : fx.resumeResendsPen = true) (caps : C
   exact ⟨⟨bg', rv', rfl⟩, hinv, ⟨g, r1, r2, c1, c2, m1, m2, m3, m4⟩, hcaps, rfl⟩
 
 /-- cached pen: background 3 + reverse video; the screen of the examples has DECLRMM set -/
-example := suspend_effect ⟨false, false, false, true⟩ rfl ⟨true, false, false⟩ ⟨true, some 3, some true⟩
+example := suspend_effect ⟨false, false, false, true, false⟩ rfl ⟨true, false, false⟩ ⟨true, some 3, some true⟩
   (by intro v h; cases h; decide) exScreen exScreen_wf (fun _ => rfl)
 
 /-- THE CLAUSE about scrolling, after a pause and a resume: a scroll that reports success still moves exactly the
@@ -876,7 +954,7 @@ theorem scroll_after_suspend (fx : Fixes) (hfx : fx.resumeResendsPen = true) (ca
   rwa [hcols] at this
 
 /-- a partial-width rectangle (columns 1..3 of 6) scrolled down and left with DECSLRM, right after pause + resume -/
-example := scroll_after_suspend ⟨false, false, false, true⟩ rfl ⟨true, false, false⟩ ⟨true, some 3, some true⟩
+example := scroll_after_suspend ⟨false, false, false, true, false⟩ rfl ⟨true, false, false⟩ ⟨true, some 3, some true⟩
   (by intro v h; cases h; decide) exScreen exScreen_wf (fun _ => rfl) ⟨1, 1, 2, 3⟩ 1 (-1)
   ⟨by decide, by decide, by decide, by decide, by decide, by decide, by decide, by decide⟩
   (fun _ h => absurd h.2.1 (by decide)) (by decide)
@@ -899,13 +977,15 @@ theorem cache_stays_ok (caps : Caps) (cache : PenCache) (pen : PenReq) (hc : Cac
 
 /-- non-vacuity of the `suspend` step of `ops_effect`: reverse-video pen, a partial-width scroll, pause + resume, the
     same scroll again, then an erase under the re-sent pen -/
-example : AllOpsInContract ⟨false, false, false, true⟩ (⟨⟨true, false, false⟩, 4, 6, PenCache.empty⟩, { cexScreen 4 6 with declrmm := true })
+example : AllOpsInContract ⟨false, false, false, true, false⟩ (⟨⟨true, false, false⟩, 4, 6, PenCache.empty⟩, { cexScreen 4 6 with declrmm := true })
     [.setpen ⟨some 3, some true⟩, .req (.scroll ⟨1, 1, 2, 3⟩ 1 0), .suspend, .req (.scroll ⟨1, 1, 2, 3⟩ 1 0),
      .req (.goto 0 0), .req (.erasech 2 .no)] := by
-  refine ⟨by intro v h; cases h; decide, ⟨⟨by decide, by decide, by decide, by decide, by decide, by decide, by decide, by decide⟩,
-    fun _ h => absurd h.2.1 (by decide)⟩, ⟨rfl, by intro v h; cases h; decide⟩, ?_⟩
-  refine ⟨⟨⟨by decide, by decide, by decide, by decide +kernel, by decide, by decide +kernel, by decide, by decide⟩,
-    fun _ h => absurd h.2.1 (by decide)⟩, ⟨Or.inr ⟨by decide, by decide +kernel⟩, Or.inr ⟨by decide, by decide +kernel⟩⟩, ?_⟩
+  refine ⟨by intro v h; cases h; decide, inContract_scroll_of_inRange _ _ _ _ _ _
+    ⟨by decide, by decide, by decide, by decide, by decide, by decide, by decide, by decide⟩
+    (fun _ h => absurd h.2.1 (by decide)), ⟨rfl, by intro v h; cases h; decide⟩, ?_⟩
+  refine ⟨inContract_scroll_of_inRange _ _ _ _ _ _
+    ⟨by decide, by decide, by decide, by decide +kernel, by decide, by decide +kernel, by decide, by decide⟩
+    (fun _ h => absurd h.2.1 (by decide)), ⟨Or.inr ⟨by decide, by decide +kernel⟩, Or.inr ⟨by decide, by decide +kernel⟩⟩, ?_⟩
   exact ⟨⟨by decide +kernel, by decide, by decide +kernel, fun _ _ _ => by decide, fun _ _ h => absurd h (by decide +kernel)⟩, trivial⟩
 
 /-! ### Formatted output: `tickit_term_printf` / `tickit_term_vprintf` -/
@@ -1094,8 +1174,8 @@ theorem erase_last_col_counterexample (fx : Fixes) : ¬ C09_erase_full fx := by
     (by decide)
   have h2 := (h1.2.2.2.1 rfl).1
   revert h2
-  rcases fx with ⟨a, b, c, d⟩
-  cases a <;> cases b <;> cases c <;> cases d <;> decide +kernel
+  rcases fx with ⟨a, b, c, d, e⟩
+  cases a <;> cases b <;> cases c <;> cases d <;> cases e <;> decide +kernel
 
 /-! ### Offsets as large as the rectangle -/
 
@@ -1136,35 +1216,105 @@ theorem scroll_oneline_vertical_partial (fx : Fixes) (hfx : fx.scrollGuard = tru
   rw [scroll_oneline_vertical_refused fx hfx caps vt.cols rect downward rightward h1 hd]
   exact ⟨rfl, rfl⟩
 
-example : scrollrect ⟨true, true, true, true⟩ ⟨true, false, false⟩ 6 ⟨2, 1, 1, 3⟩ (-1) 0 = (false, []) :=
+example : scrollrect ⟨true, true, true, true, true⟩ ⟨true, false, false⟩ 6 ⟨2, 1, 1, 3⟩ (-1) 0 = (false, []) :=
   scroll_oneline_vertical_refused _ rfl _ _ _ _ _ rfl (by decide)
-example : scrollrect ⟨true, true, true, true⟩ ⟨true, false, false⟩ 6 ⟨2, 1, 1, 3⟩ 1 2 = (false, []) := by decide
+example : scrollrect ⟨true, true, true, true, true⟩ ⟨true, false, false⟩ 6 ⟨2, 1, 1, 3⟩ 1 2 = (false, []) := by decide
 -- the same rectangle scrolled horizontally only is accepted (ICH/DCH between DECSLRM margins)
-example : (scrollrect ⟨true, true, true, true⟩ ⟨true, false, false⟩ 6 ⟨2, 1, 1, 3⟩ 0 2).1 = true := by decide
+example : (scrollrect ⟨true, true, true, true, true⟩ ⟨true, false, false⟩ 6 ⟨2, 1, 1, 3⟩ 0 2).1 = true := by decide
 
 /-- What the clause demands of a success that the one-line path would report for a vertical offset: had the bytes of
     the horizontal-only strategy (`scrollrect … 0 r`) been sent for `(d, r)` with `d ≠ 0`, the rectangle would have had
     to end up blank.  On a 3x6 screen the cell (1,2) keeps a glyph: such a success would violate the clause. -/
 theorem oneline_horizontal_bytes_do_not_scroll_vertically :
     ¬ Spec.ScrollOK ⟨1, 1, 1, 3⟩ 1 1 { cexScreen 3 6 with declrmm := true }
-        (run (scrollrect ⟨true, true, true, true⟩ ⟨true, false, false⟩ 6 ⟨1, 1, 1, 3⟩ 0 1).2 { cexScreen 3 6 with declrmm := true }) := by
+        (run (scrollrect ⟨true, true, true, true, true⟩ ⟨true, false, false⟩ 6 ⟨1, 1, 1, 3⟩ 0 1).2 { cexScreen 3 6 with declrmm := true }) := by
   intro h
   have h2 := congrFun (congrFun h.2.1 1) 1
   revert h2
   decide +kernel
 
-/-- DEFECT (unchanged tree, all repairs so far): on a 2x5 terminal with DECSLRM available, `scrollrect((1,0) 1x1, 0, -1)`
-    reports success and sends `CSI ;1 s  CSI 2 H  CSI @  CSI s`; `CSI ;1 s` asks for left = right margin and is ignored,
-    so ICH shifts the whole of row 1 and cell (1,1), outside the rectangle, changes. -/
-theorem scroll_one_cell_counterexample (fx : Fixes) : ¬ C09_scroll_any_offset fx := by
+/-- DEFECT (the tree before `fixes/C09_scroll_one_cell.patch`, with every other repair or none): on a 2x5 terminal with
+    DECSLRM available, `scrollrect((1,0) 1x1, 0, -1)` reports success and sends `CSI ;1 s  CSI 2 H  CSI @  CSI s`;
+    `CSI ;1 s` asks for left = right margin and is ignored, so ICH shifts the whole of row 1 and cell (1,1), outside
+    the rectangle, changes. -/
+theorem scroll_one_cell_counterexample (fx : Fixes) (hfx : fx.scrollCellGuard = false) : ¬ C09_scroll_any_offset fx := by
   intro h
+  rcases fx with ⟨a, b, c, d, e⟩
+  simp only at hfx
+  subst hfx
   have h1 := h { cexScreen 2 5 with declrmm := true } (by constructor <;> decide) ⟨true, false, false⟩ (fun _ => rfl)
     ⟨1, 0, 1, 1⟩ 0 (-1) (by decide) (by decide) (by decide) (by decide) (by decide) (by decide)
-    (by rcases fx with ⟨a, b, c, d⟩; cases a <;> cases b <;> cases c <;> cases d <;> decide)
+    (by cases a <;> cases b <;> cases c <;> cases d <;> decide)
   have h2 := congrFun (congrFun h1.2.1 1) 1
   revert h2
-  rcases fx with ⟨a, b, c, d⟩
   cases a <;> cases b <;> cases c <;> cases d <;> decide +kernel
+
+/-- The unrepaired flag value is the unchanged tree's. -/
+example : ¬ C09_scroll_any_offset Fixes.none := scroll_one_cell_counterexample _ rfl
+
+/-- With the one-cell guard the same request is refused: nothing is sent. -/
+example : scrollrect ⟨true, true, true, true, true⟩ ⟨true, false, false⟩ 5 ⟨1, 0, 1, 1⟩ 0 (-1) = (false, []) := by decide
+
+/-- The margin guard alone does not suffice either: without it a vertical offset as large as a one-line rectangle is
+    sent as DECSTBM `CSI 2;2 r` (ignored) + DL on the whole screen. -/
+theorem scroll_any_offset_needs_margin_guard (fx : Fixes) (hfx : fx.scrollGuard = false) : ¬ C09_scroll_any_offset fx := by
+  intro h
+  rcases fx with ⟨a, b, c, d, e⟩
+  simp only at hfx
+  subst hfx
+  have h1 := h (cexScreen 3 2) (by constructor <;> decide) ⟨false, false, false⟩ (fun h => by cases h)
+    ⟨1, 0, 1, 2⟩ 1 0 (by decide) (by decide) (by decide) (by decide) (by decide) (by decide)
+    (by cases b <;> cases c <;> cases d <;> cases e <;> decide)
+  have h2 := congrFun (congrFun h1.2.1 2) 0
+  revert h2
+  cases b <;> cases c <;> cases d <;> cases e <;> decide +kernel
+
+/-- THE CLAUSE for the repaired source (both guards of `scrollrect` present: `fixes/C09_scroll_one_column.patch` and
+    `fixes/C09_scroll_one_cell.patch`): for every screen, every non-empty rectangle on it, EVERY offset pair (also
+    `|downward| ≥ lines` or `|rightward| ≥ cols`), both values of the DECSLRM capability and whichever strategy the
+    driver picks, a scroll that reports success moves exactly the cells of the rectangle by the offsets, blanks the
+    vacated cells (all of them when an offset is at least the size), touches nothing outside and leaves no margins
+    set. -/
+theorem scroll_any_offset_of_guards (fx : Fixes) (hfx : fx.scrollGuard = true) (hcell : fx.scrollCellGuard = true) :
+    C09_scroll_any_offset fx := by
+  intro vt hw caps hcaps rect d r hl1 hc1 htop hbot hleft hright hret
+  exact scroll_effect_general fx vt hw caps hcaps rect d r hl1 hc1 htop hbot hleft hright
+    (fun h => by rw [hfx] at h; cases h) (fun h => by rcases h with h | h <;> simp_all)
+    (fun h => by rw [hfx] at h; cases h) hret
+
+/-- … and a scroll that reports failure emits nothing (`scroll_failure_silent`, for every offset pair): together the
+    two halves of the clause. -/
+theorem scroll_any_offset_both (fx : Fixes) (hfx : fx.scrollGuard = true) (hcell : fx.scrollCellGuard = true)
+    (vt : VTState) (hw : Spec.WF vt) (caps : Caps) (hcaps : Spec.CapsOK caps vt) (rect : Rect) (downward rightward : Int)
+    (hl1 : 1 ≤ rect.lines) (hc1 : 1 ≤ rect.cols) (htop : 0 ≤ rect.top) (hbot : rect.bottom ≤ vt.lines)
+    (hleft : 0 ≤ rect.left) (hright : rect.right ≤ vt.cols) :
+    if (scrollrect fx caps vt.cols rect downward rightward).1 = true
+    then Spec.ScrollOK rect downward rightward vt (run (scrollrect fx caps vt.cols rect downward rightward).2 vt)
+    else (scrollrect fx caps vt.cols rect downward rightward).2 = [] ∧
+      run (scrollrect fx caps vt.cols rect downward rightward).2 vt = vt := by
+  cases hret : (scrollrect fx caps vt.cols rect downward rightward).1 with
+  | true =>
+    simp only [if_true]
+    exact scroll_any_offset_of_guards fx hfx hcell vt hw caps hcaps rect downward rightward hl1 hc1 htop hbot hleft hright hret
+  | false =>
+    simp only [Bool.false_eq_true, if_false]
+    rw [scroll_failure_silent fx caps vt.cols rect downward rightward hret]
+    exact ⟨rfl, rfl⟩
+
+/-- non-vacuity: a 2x3 rectangle inside `exScreen` (4x6) with margins on all four sides, scrolled down by 5 (more than
+    its 2 lines) and left by 3 (its width): success is reported and the whole rectangle ends up blank -/
+example : (scrollrect ⟨true, true, true, true, true⟩ ⟨true, false, false⟩ exScreen.cols ⟨1, 1, 2, 3⟩ 5 (-3)).1 = true := by
+  decide
+example := scroll_any_offset_of_guards ⟨true, true, true, true, true⟩ rfl rfl exScreen exScreen_wf ⟨true, false, false⟩
+  (fun _ => rfl) ⟨1, 1, 2, 3⟩ 5 (-3) (by decide) (by decide) (by decide) (by decide) (by decide) (by decide) (by decide)
+example : (run (scrollrect ⟨true, true, true, true, true⟩ ⟨true, false, false⟩ 6 ⟨1, 1, 2, 3⟩ 5 (-3)).2 exScreen).grid 2 3 =
+    Cell.blank 3 := by decide +kernel
+/-- ICH/DCH on full-width lines without DECSLRM, offset larger than the width: three blank lines -/
+example := scroll_any_offset_of_guards ⟨true, true, true, true, true⟩ rfl rfl exScreen exScreen_wf ⟨false, false, false⟩
+  (by intro h; cases h) ⟨0, 2, 3, 4⟩ 0 7 (by decide) (by decide) (by decide) (by decide) (by decide) (by decide) (by decide)
+/-- one line between DECSLRM margins, offset far larger than the width -/
+example := scroll_any_offset_of_guards ⟨true, true, true, true, true⟩ rfl rfl exScreen exScreen_wf ⟨true, false, false⟩
+  (fun _ => rfl) ⟨2, 1, 1, 4⟩ 0 (-1000) (by decide) (by decide) (by decide) (by decide) (by decide) (by decide) (by decide)
 
 /-! ### Tie to the source: constants and format strings regenerated from `termdriver-xterm.c` on every run -/
 
